@@ -17,11 +17,12 @@ open Tengo.Model.Spec
 /-- The loop, unfolded once. -/
 theorem run_succ (code : Code) (keep fuel : Nat) (allocs : Int) (cfg : Cfg) (log : Log) :
     run code keep (fuel + 1) allocs cfg log =
-      match ((exec code cfg.core).run cfg.gst).run cfg.heap with
+      match (((exec code cfg.core).run).run cfg.gst).run cfg.heap with
       | .error e => (.failed e cfg, log.tick keep (observe cfg.core allocs))
-      | .ok ((.halt c, g), h) => (.halted ⟨c, g, h⟩, log.tick keep (observe cfg.core allocs))
-      | .ok ((.next c false, g), h) => run code keep fuel allocs ⟨c, g, h⟩ (log.tick keep (observe cfg.core allocs))
-      | .ok ((.next c true, g), h) =>
+      | .ok ((.error ft, _), _) => (.fault ft cfg, log.tick keep (observe cfg.core allocs))
+      | .ok ((.ok (.halt c), g), h) => (.halted ⟨c, g, h⟩, log.tick keep (observe cfg.core allocs))
+      | .ok ((.ok (.next c false), g), h) => run code keep fuel allocs ⟨c, g, h⟩ (log.tick keep (observe cfg.core allocs))
+      | .ok ((.ok (.next c true), g), h) =>
         if allocs - 1 == 0 then (.limit cfg, log.tick keep (observe cfg.core allocs))
         else run code keep fuel (allocs - 1) ⟨c, g, h⟩ (log.tick keep (observe cfg.core allocs)).count := by
   rw [run]; rfl
@@ -38,6 +39,7 @@ theorem run_counted_le (code : Code) (keep : Nat) :
     intro allocs cfg log h
     rw [run_succ]
     split
+    · simp; omega
     · simp; omega
     · simp; omega
     · rename_i c g hh _
@@ -77,6 +79,7 @@ theorem run_limit_exact (code : Code) (keep : Nat) :
     split
     · intro hl; simp at hl
     · intro hl; simp at hl
+    · intro hl; simp at hl
     · intro hl
       have := ih allocs _ _ at_ h hl
       simpa using this
@@ -107,6 +110,7 @@ theorem run_unlimited (code : Code) (keep : Nat) :
     split
     · simp
     · simp
+    · simp
     · exact ih allocs _ _ at_ h
     · split
       · rename_i h0
@@ -129,6 +133,7 @@ theorem run_mono (code : Code) (keep : Nat) :
     intro a a' cfg log log' o ha hle
     rw [run_succ, run_succ]
     split
+    · intro h _; simpa using h
     · intro h _; simpa using h
     · intro h _; simpa using h
     · intro h hn; exact ih a a' _ _ _ o ha hle h hn
@@ -162,6 +167,7 @@ theorem run_mono_counts (code : Code) (keep : Nat) :
     intro a a' cfg log log' ha hle hs hc
     rw [run_succ, run_succ]
     split
+    · intro _; simp [hs, hc]
     · intro _; simp [hs, hc]
     · intro _; simp [hs, hc]
     · intro hn; exact ih a a' _ _ _ ha hle (by simp [hs]) (by simp [hc]) hn
